@@ -67,8 +67,24 @@ def docstring(style: str, params: list[tuple[str, list | None, bool]], result: t
     return "\n".join(lines).rstrip("\n")
 
 
+# pairs of different types whose ordered components are permutations of each other (extended: the tool's type values compare
+# such components as multisets, so it sees no conflict - open finding about the warning; the chosen type is still judged)
+PERM_PAIRS = [
+    (["list", ["tuple", [["int"], ["str"]]]], ["list", ["tuple", [["str"], ["int"]]]]),
+    (["dict", ["str"], ["tuple", [["bool"], ["float"]]]], ["dict", ["str"], ["tuple", [["float"], ["bool"]]]]),
+    (["callable", [["int"], ["str"]], ["bool"]], ["callable", [["str"], ["int"]], ["bool"]]),
+]
+
+
+def is_perm_pair(hint: list | None, doc: list | None) -> bool:
+    return hint is not None and doc is not None and any((hint == a and doc == b) or (hint == b and doc == a) for a, b in PERM_PAIRS)
+
+
 @st.composite
 def _slot(draw: Any) -> tuple[list | None, list | None]:
+    if draw(st.integers(0, 7)) == 0:
+        a, b = draw(st.sampled_from(PERM_PAIRS))
+        return (a, b) if draw(st.booleans()) else (b, a)
     a = draw(st.sampled_from(TYPES))
     b = draw(st.sampled_from([t for t in TYPES if t != a]))
     return draw(st.sampled_from([(None, None), (None, a), (a, None), (a, a), (a, b), (a, b)]))
@@ -177,21 +193,28 @@ def judge(case: dict) -> dict:
             # warnings
             msgs = Counter(m for lvl, m in r["logs"] if lvl == "WARNING" and m.startswith("Different type hint and docstring types"))
             exp: Counter = Counter()
+            exp_perm: Counter = Counter()
             if warn == "WARN":
                 for fname, fs in case["slots"].items():
                     fid = f"{modid}/{fname.replace('.', '/')}"
                     for _pn, (hint, doc) in fs["params"].items():
                         if hint is not None and doc is not None and ref.tr(hint) != ref.tr(doc):
                             exp[f"Different type hint and docstring types for '{fid}'."] += 1
+                            if is_perm_pair(hint, doc):
+                                exp_perm[f"Different type hint and docstring types for '{fid}'."] += 1
                     if fs["result"] and fs["result"][0] is not None and fs["result"][1] is not None and ref.tr(fs["result"][0]) != ref.tr(fs["result"][1]):
                         exp[f"Different type hint and docstring types for the result of '{fid}'."] += 1
+                        if is_perm_pair(*fs["result"]):
+                            exp_perm[f"Different type hint and docstring types for the result of '{fid}'."] += 1
                     for hint, doc in fs.get("results", []):
                         if doc is not None and ref.tr(hint) != ref.tr(doc):
                             exp[f"Different type hint and docstring types for the result of '{fid}'."] += 1
             if msgs != exp:
                 missing = list((exp - msgs).elements())[:2]
                 extra = list((msgs - exp).elements())[:2]
-                discs.append(Discrepancy.make("warnings_differ", f"{pref}/{warn}", f"missing {missing}; unexpected {extra}", []))
+                # open finding: no warning for two different types whose ordered components are permutations of each other
+                wtags = ["types:permutation_equal"] if msgs == exp - exp_perm else []
+                discs.append(Discrepancy.make("warnings_differ", f"{pref}/{warn}", f"missing {missing}; unexpected {extra}", wtags))
         a, b = outputs[(pref, "WARN")], outputs[(pref, "IGNORE")]
         if a["stubs"] != b["stubs"] or a["api_text"] != b["api_text"]:
             diff = [k for k in sorted(set(a["stubs"]) | set(b["stubs"])) if a["stubs"].get(k) != b["stubs"].get(k)] or ["<api json>"]
